@@ -971,6 +971,10 @@ impl TransportParameterValidator for PreferredAddress {
             !self.is_unspecified(),
             "at least one address needs to be specified"
         );
+        decoder_invariant!(
+            !self.connection_id.is_empty(),
+            "preferred_address connection id must not be zero-length"
+        );
         Ok(self)
     }
 }
